@@ -52,7 +52,13 @@ def classify(res):
     res.vacuous = []
     for name, obs in groups.items():
         if not any(o.result == "sat" for o in obs):
-            if all(o.result == "unsat" for o in obs):
+            if all(o.kind == "cover-optional" for o in obs):
+                # reachability of a permitted (may_raise) exception: informational, see interp.verify
+                if all(o.result == "unsat" for o in obs):
+                    res.notes.append("permitted exception never raised in the model: %s unreachable" % name)
+                else:
+                    res.notes.append("cover/canary %s undecided (optional)" % name)
+            elif all(o.result == "unsat" for o in obs):
                 res.vacuous.append(name)
             else:
                 res.notes.append("cover/canary %s undecided" % name)
